@@ -28,7 +28,10 @@ static void list_units(const std::string& tier)
     // matrix products: MM_MULTIPLY(a,b) must be the very edge the harness builder makes for the product table
     // (operands in a quasi-reduced forest - see DESIGN 0.3 on why - result in a forest of each reduction rule)
     for (const char* rg : {"MTi","MTr"}) for (char rr : {'Q','F','I'})
-        for (const char* sn : {"S1","S2","S3","S4"}) printf("mode=mm,kind=R:%s:Q,res=R:%s:%c,shape=%s,pol=eao\n", rg, rg, rr, sn);
+        for (const char* sn : {"S1","S2","S3","S4"}) for (char st : {'e','f','s'}) {
+            if (st!='e' && !th && std::string(sn)=="S4") continue;     // storage-flag variants of the largest shape: thorough only
+            printf("mode=mm,kind=R:%s:Q,res=R:%s:%c,shape=%s,pol=%cao\n", rg, rg, rr, sn, st);
+        }
     // E2 part
     std::vector<std::string> hk = {"S:MTb:F","S:MTb:Q","S:MTi:F","S:EVpi:F","R:MTb:I","R:MTb:F","R:MTi:Q","R:EVpi:I"};
     for (auto& k : hk) for (const char* pol : {"eao","eap"}) {
